@@ -2,10 +2,21 @@
 // (alternative but legal encodings, aliases), decoded by the real codec; the expected frame is given next to the bytes.
 // These exercise the "specification-formatted bytes decode to the message they denote" clause of C02 where the
 // generator (which starts from Go values) cannot reach.
+//
+// Every byte below is derived from the text of /repo/specs/*.spec (section numbers in the comments), never from the
+// library's encoder.  The length arithmetic of each body is written next to the case; cmdSpecBytes re-checks that the
+// length field of the header, the BodyLength of the expected frame and the number of body bytes agree (a malformed
+// hand-written case stops the command instead of producing a misleading record).
+//
+// "FAILS on /repo HEAD" marks a case whose outcome on the current library differs from the expectation: these are
+// candidate defects (see notes/specbytes.md); they stay in the file on purpose.
 package main
 
 import (
+	"encoding/binary"
 	"encoding/hex"
+	"fmt"
+	"net"
 	"strings"
 
 	"github.com/datastax/go-cassandra-native-protocol/datatype"
@@ -22,15 +33,76 @@ type specCase struct {
 	expect  *frame.Frame // nil: the specification of that version does not define these bytes, an error is expected
 }
 
+// respFrame builds the expected frame of a message without header flags (requests as well as responses: the direction
+// comes from the message).
 func respFrame(v primitive.ProtocolVersion, stream int16, bodyLen int32, msg message.Message) *frame.Frame {
 	return &frame.Frame{Header: &frame.Header{IsResponse: msg.IsResponse(), Version: v, StreamId: stream, OpCode: msg.GetOpCode(), BodyLength: bodyLen},
 		Body: &frame.Body{Message: msg}}
 }
 
+// flagFrame builds the expected frame of a body that carries header flags (tracing id, warnings, custom payload).
+func flagFrame(v primitive.ProtocolVersion, flags primitive.HeaderFlag, stream int16, bodyLen int32, body *frame.Body) *frame.Frame {
+	m := body.Message
+	return &frame.Frame{Header: &frame.Header{IsResponse: m.IsResponse(), Version: v, Flags: flags, StreamId: stream, OpCode: m.GetOpCode(), BodyLength: bodyLen},
+		Body: body}
+}
+
+// Fragments used by many cases (section 3 of every specification: [string] = [short] n + n bytes, [long string] = [int] n + n bytes).
+const (
+	hxKs    = "0002 6b73"                                                  // [string] "ks"
+	hxT     = "0001 74"                                                    // [string] "t"
+	hxM     = "0001 6d"                                                    // [string] "m" (error message)
+	hxQ     = "00000001 71"                                                // [long string] "q"
+	hxGspec = hxKs + " " + hxT                                             // <global_table_spec> "ks"."t" (7 bytes)
+	hxColC  = "0001 63"                                                    // column name "c"
+	hxUuid  = "00112233 44556677 8899aabb ccddeeff"                        // [uuid]
+	hxTopo  = "000f 544f504f4c4f47595f4348414e4745"                        // [string] "TOPOLOGY_CHANGE" (17 bytes)
+	hxStat  = "000d 5354415455535f4348414e4745"                            // [string] "STATUS_CHANGE" (15 bytes)
+	hxSchem = "000d 534348454d415f4348414e4745"                            // [string] "SCHEMA_CHANGE" (15 bytes)
+	hxCre   = "0007 43524541544544"                                        // [string] "CREATED" (9 bytes)
+	hxUpd   = "0007 55504441544544"                                        // [string] "UPDATED" (9 bytes)
+	hxDro   = "0007 44524f50504544"                                        // [string] "DROPPED" (9 bytes)
+	hxFun   = "0008 46554e4354494f4e"                                      // [string] "FUNCTION" (10 bytes)
+	hxAgg   = "0009 414747524547415445"                                    // [string] "AGGREGATE" (11 bytes)
+	hxCqlV  = "000b 43514c5f56455253494f4e 0005 332e302e30"                // "CQL_VERSION" -> "3.0.0" (13 + 7 bytes)
+	hxIPv6  = "10 20010db8 00000000 00000000 00000001"                     // [inetaddr] 2001:db8::1 (17 bytes)
+	hxOneCI = "00000002 00000001 00000001 " + hxGspec + " " + hxColC + " " // Rows, Global_tables_spec, 1 column "c" of type ... (4+4+4+7+3 bytes)
+	hxCAS   = "0001 6d 0008 00000001 00000002 0003 434153"                 // "m" SERIAL received=1 blockfor=2 "CAS" (3+2+4+4+5 bytes)
+	hxRF    = "00001300 0001 6d 0001 00000001 00000002"                    // Read_failure "m" ONE received=1 blockfor=2 (4+3+2+4+4 bytes)
+	hxCP    = "00000005 00000002"                                          // <max_num_pages>=5 <pages_per_second>=2
+	hxPrep0 = "00000000 00000000 00000000 00000004 00000000"               // v4+ Prepared: no bind markers, no pk, empty result metadata (12+8 bytes)
+	hxAllEv = "0003 " + hxTopo + " " + hxStat + " " + hxSchem              // [string list] of the three event types (2+17+15+15 bytes)
+	// four column specifications under a global table spec (v3+ 4.2.5.2 option ids):
+	hxTyA   = " 0001 61 0000 0003 782e59"                                                     // "a": custom "x.Y" (3+2+5 bytes)
+	hxTyB   = " 0001 62 0020 0021 0009 0022 000d"                                             // "b": list<map<int,set<varchar>>> (3+10 bytes)
+	hxTyC   = " 0001 63 0030 0002 6b73 0001 75 0002 0001 66 0011 0001 67 0031 0002 0012 0013" // "c": udt ks.u {f: date, g: tuple<time,smallint>} (3+2+4+3+2+5+11 bytes)
+	hxTyD   = " 0001 64 0014"                                                                 // "d": tinyint (3+2 bytes)
+	hxTypes = hxTyA + hxTyB + hxTyC + hxTyD
+)
+
 func specCases() []specCase {
-	col := func(name string, t datatype.DataType) *message.ColumnMetadata {
-		return &message.ColumnMetadata{Keyspace: "ks", Table: "t", Name: name, Type: t}
-	}
+	var all []specCase
+	all = append(all, specCasesFirst()...)
+	all = append(all, specCasesQuery()...)
+	all = append(all, specCasesExecPrepBatch()...)
+	all = append(all, specCasesResult()...)
+	all = append(all, specCasesError()...)
+	all = append(all, specCasesEvent()...)
+	all = append(all, specCasesHandshake()...)
+	all = append(all, specCasesHeader()...)
+	return all
+}
+
+func col(name string, t datatype.DataType) *message.ColumnMetadata {
+	return &message.ColumnMetadata{Keyspace: "ks", Table: "t", Name: name, Type: t}
+}
+
+func oneCol(t datatype.DataType) *message.RowsResult {
+	return &message.RowsResult{Metadata: &message.RowsMetadata{ColumnCount: 1, Columns: []*message.ColumnMetadata{col("c", t)}}, Data: message.RowSet{}}
+}
+
+// the first eight cases (ids sb1..sb8 are referred to elsewhere: keep their order)
+func specCasesFirst() []specCase {
 	rowsText := "00000002 00000001 00000001 0002 6b73 0001 74 0001 63 000a 00000000"
 	rowsListText := "00000002 00000001 00000001 0002 6b73 0001 74 0001 63 0020 000a 00000000"
 	return []specCase{
@@ -55,13 +127,522 @@ func specCases() []specCase {
 	}
 }
 
+func i32p(v int32) *int32 { return &v }
+func i64p(v int64) *int64 { return &v }
+func clp(c primitive.ConsistencyLevel) *primitive.ConsistencyLevel {
+	return &c
+}
+
+const (
+	clOne    = primitive.ConsistencyLevelOne
+	clQuorum = primitive.ConsistencyLevelQuorum
+)
+
+// QUERY: <query><consistency><flags>[values][page_size][paging_state][serial_consistency][timestamp][keyspace][now_in_seconds]
+// (section 4.1.4 of every specification; [value] / [bytes] in section 3)
+func specCasesQuery() []specCase {
+	q := func(o *message.QueryOptions) *message.Query { return &message.Query{Query: "q", Options: o} }
+	named7 := map[string]*primitive.Value{"k": primitive.NewValue([]byte{7})}
+	return []specCase{
+		// v4 section 3 [value]: -1 null, -2 not set, 0 empty, n > 0.  body = 5+2+1+2+4+4+4+5 = 27
+		{"v4 query, values null / not set / empty / one byte", v4, "04 00 0001 07 0000001b " + hxQ + " 0001 01 0004 ffffffff fffffffe 00000000 00000001 2a",
+			respFrame(v4, 1, 27, q(&message.QueryOptions{Consistency: clOne, PositionalValues: []*primitive.Value{
+				primitive.NewNullValue(), primitive.NewUnsetValue(), primitive.NewValue([]byte{}), primitive.NewValue([]byte{0x2a})}}))},
+		// v4 section 3 [value]: "n < -2 is an invalid value and results in an error".  body = 5+2+1+2+4 = 14
+		{"v4 query, value of length -3 is an error", v4, "04 00 0001 07 0000000e " + hxQ + " 0001 01 0001 fffffffd", nil},
+		// v3 4.1.4 flag 0x01: the values are [bytes]; v3 section 3 [bytes]: n < 0 is null (v3 has no "not set").  body = 14
+		// FAILS on /repo HEAD: ReadValue refuses -2 below v4 ("cannot use unset value with ProtocolVersion OSS 3")
+		{"v3 query, a [bytes] value of length -2 is null", v3, "03 00 0001 07 0000000e " + hxQ + " 0001 01 0001 fffffffe",
+			respFrame(v3, 1, 14, q(&message.QueryOptions{Consistency: clOne, PositionalValues: []*primitive.Value{primitive.NewNullValue()}}))},
+		// v2 4.1.4 flag 0x01 + section 3 [bytes]: any negative length is null.  body = 14
+		// FAILS on /repo HEAD: "invalid [value] length: -3"
+		{"v2 query, a [bytes] value of length -3 is null", v2, "02 00 01 07 0000000e " + hxQ + " 0001 01 0001 fffffffd",
+			respFrame(v2, 1, 14, q(&message.QueryOptions{Consistency: clOne, PositionalValues: []*primitive.Value{primitive.NewNullValue()}}))},
+		// v4 4.1.4 flag 0x40 without 0x01: "only makes sense if the 0x01 flag is set and is ignored otherwise".  body = 5+2+1 = 8
+		{"v4 query, flag 0x40 without 0x01 is ignored", v4, "04 00 0001 07 00000008 " + hxQ + " 0001 40",
+			respFrame(v4, 1, 8, q(&message.QueryOptions{Consistency: clOne}))},
+		// v4 4.1.4: every flag at once (0x7f), named value "k"=07, page size 100, paging state beef, LOCAL_SERIAL, timestamp 1234.
+		// body = 5+2+1+(2+3+5)+4+6+2+8 = 38
+		{"v4 query, all seven flags", v4, "04 00 0001 07 00000026 " + hxQ + " 0001 7f 0001 0001 6b 00000001 07 00000064 00000002 beef 0009 00000000000004d2",
+			respFrame(v4, 1, 38, q(&message.QueryOptions{Consistency: clOne, NamedValues: named7, SkipMetadata: true, PageSize: 100, PagingState: []byte{0xbe, 0xef},
+				SerialConsistency: clp(primitive.ConsistencyLevelLocalSerial), DefaultTimestamp: i64p(1234)}))},
+		// v2 4.1.4: the five v2 flags (0x1f).  body = 5+2+1+(2+5)+4+6+2 = 27
+		{"v2 query, all five flags", v2, "02 00 01 07 0000001b " + hxQ + " 0001 1f 0001 00000001 07 00000064 00000002 beef 0008",
+			respFrame(v2, 1, 27, q(&message.QueryOptions{Consistency: clOne, PositionalValues: []*primitive.Value{primitive.NewValue([]byte{7})}, SkipMetadata: true,
+				PageSize: 100, PagingState: []byte{0xbe, 0xef}, SerialConsistency: clp(primitive.ConsistencyLevelSerial)}))},
+		// v4 4.1.4 flag 0x08: <paging_state> is a [bytes]; a null one is a legal [bytes].  body = 5+2+1+4 = 12
+		{"v4 query, null paging state", v4, "04 00 0001 07 0000000c " + hxQ + " 0001 08 ffffffff",
+			respFrame(v4, 1, 12, q(&message.QueryOptions{Consistency: clOne}))},
+		// v5 4.1.4: <flags> is an [int]; 0x0080 keyspace, 0x0100 now_in_seconds.  body = 5+2+4+4+4 = 19
+		{"v5 query, keyspace and now_in_seconds", v5, "05 00 0001 07 00000013 " + hxQ + " 0001 00000180 0002 6b73 0000000a",
+			respFrame(v5, 1, 19, q(&message.QueryOptions{Consistency: clOne, Keyspace: "ks", NowInSeconds: i32p(10)}))},
+		// v5 4.1.4: flags 0x01a5 = values, page size, timestamp, keyspace, now_in_seconds in that order.  body = 5+2+4+(2+5)+4+8+4+4 = 38
+		{"v5 query, values page size timestamp keyspace now", v5, "05 00 0001 07 00000026 " + hxQ + " 0001 000001a5 0001 00000001 07 00000064 00000000000004d2 0002 6b73 0000000a",
+			respFrame(v5, 1, 38, q(&message.QueryOptions{Consistency: clOne, PositionalValues: []*primitive.Value{primitive.NewValue([]byte{7})}, PageSize: 100,
+				DefaultTimestamp: i64p(1234), Keyspace: "ks", NowInSeconds: i32p(10)}))},
+		// v4 4.1.4 defines flags 0x01..0x40 only: bit 0x80 (keyspace, v5) has no meaning in v4.  body = 5+2+1+4 = 12
+		// FAILS on /repo HEAD (accepted, Keyspace = "ks"): DecodeQueryOptions does not gate flag bits by version
+		{"v4 query, flag 0x80 is not defined by v4", v4, "04 00 0001 07 0000000c " + hxQ + " 0001 80 0002 6b73", nil},
+		// dse_protocol_v1.spec 10: "Does _not_ have keyspace field in QUERY".  body = 5+2+4+4 = 15
+		// FAILS on /repo HEAD (accepted, Keyspace = "ks")
+		{"DSE v1 query, flag 0x80 is not defined by DSE v1", dse1, "41 00 0001 07 0000000f " + hxQ + " 0001 00000080 0002 6b73", nil},
+		// v2 4.1.4 defines flags 0x01..0x10 only: 0x20 (default timestamp) is v3+.  body = 5+2+1+8 = 16
+		// FAILS on /repo HEAD (accepted, DefaultTimestamp = 1234)
+		{"v2 query, flag 0x20 is not defined by v2", v2, "02 00 01 07 00000010 " + hxQ + " 0001 20 00000000000004d2", nil},
+		// section 3 [long string]: an [int] n followed by n bytes; a negative n denotes nothing.  body = 4+2+1 = 7
+		// FAILS on /repo HEAD (accepted as the empty query): ReadLongString maps every n <= 0 to ""
+		{"v4 query, [long string] of length -1", v4, "04 00 0001 07 00000007 ffffffff 0001 00", nil},
+		// section 3 [consistency]: 0x0000..0x000A.  body = 5+2+1 = 8
+		{"v4 query, consistency 0x000B is not defined", v4, "04 00 0001 07 00000008 " + hxQ + " 000b 00", nil},
+		// dse_protocol_v1.spec 4.1.4: flags [int]; 0x80000000 continuous paging <max_num_pages><pages_per_second> (no <next_pages> in DSE v1).
+		// body = 5+2+4+4+8 = 23
+		{"DSE v1 query, continuous paging options", dse1, "41 00 0001 07 00000017 " + hxQ + " 0001 80000004 00000064 " + hxCP,
+			respFrame(dse1, 1, 23, q(&message.QueryOptions{Consistency: clOne, PageSize: 100, ContinuousPagingOptions: &message.ContinuousPagingOptions{MaxPages: 5, PagesPerSecond: 2}}))},
+		// dse_protocol_v2.spec 4.1.4: [<timestamp>][<keyspace>][continuous_paging_options] with <next_pages>.  flags 0x800000a4.
+		// body = 5+2+4+4+8+4+12 = 39
+		{"DSE v2 query, timestamp keyspace continuous paging", dse2, "42 00 0001 07 00000027 " + hxQ + " 0001 800000a4 00000064 00000000000004d2 0002 6b73 " + hxCP + " 00000003",
+			respFrame(dse2, 1, 39, q(&message.QueryOptions{Consistency: clOne, PageSize: 100, DefaultTimestamp: i64p(1234), Keyspace: "ks",
+				ContinuousPagingOptions: &message.ContinuousPagingOptions{MaxPages: 5, PagesPerSecond: 2, NextPages: 3}}))},
+	}
+}
+
+// EXECUTE (4.1.6), PREPARE (4.1.5), BATCH (4.1.7)
+func specCasesExecPrepBatch() []specCase {
+	id := []byte{0xca, 0xfe}
+	rmid := []byte{0xba, 0xbe}
+	v7 := []*primitive.Value{primitive.NewValue([]byte{7})}
+	return []specCase{
+		// v4 4.1.6 + 4.1.4 flags 0x41: named values in EXECUTE ("while supported, is almost surely inefficient").  body = 4+2+1+2+3+5 = 17
+		{"v4 execute, named values", v4, "04 00 0001 0a 00000011 0002 cafe 0004 41 0001 0001 6b 00000001 07",
+			respFrame(v4, 1, 17, &message.Execute{QueryId: id, Options: &message.QueryOptions{Consistency: clQuorum, NamedValues: map[string]*primitive.Value{"k": primitive.NewValue([]byte{7})}}})},
+		// v5 4.1.6: <id><result_metadata_id><query_parameters>.  body = 4+4+2+4 = 14
+		{"v5 execute, result metadata id", v5, "05 00 0001 0a 0000000e 0002 cafe 0002 babe 0001 00000000",
+			respFrame(v5, 1, 14, &message.Execute{QueryId: id, ResultMetadataId: rmid, Options: &message.QueryOptions{Consistency: clOne}})},
+		// v5 4.1.6 / 4.2.5.4: <result_metadata_id> is a [short bytes]; n = 0 is a legal [short bytes].  body = 4+2+2+4 = 12
+		// FAILS on /repo HEAD: "EXECUTE missing result metadata id" (although RESULT Prepared with an empty id decodes)
+		{"v5 execute, empty result metadata id", v5, "05 00 0001 0a 0000000c 0002 cafe 0000 0001 00000000",
+			respFrame(v5, 1, 12, &message.Execute{QueryId: id, ResultMetadataId: []byte{}, Options: &message.QueryOptions{Consistency: clOne}})},
+		// dse_protocol_v2.spec 4.1.6 + 4.1.4: result metadata id; flags 0xc0000004 = page size in bytes + continuous paging.
+		// body = 4+4+2+4+4+12 = 30
+		{"DSE v2 execute, page size in bytes, continuous paging", dse2, "42 00 0001 0a 0000001e 0002 cafe 0002 babe 0001 c0000004 00001000 " + hxCP + " 00000003",
+			respFrame(dse2, 1, 30, &message.Execute{QueryId: id, ResultMetadataId: rmid, Options: &message.QueryOptions{Consistency: clOne, PageSize: 4096, PageSizeInBytes: true,
+				ContinuousPagingOptions: &message.ContinuousPagingOptions{MaxPages: 5, PagesPerSecond: 2, NextPages: 3}}})},
+		// dse_protocol_v1.spec 4.1.6: <id><query_parameters>, no result metadata id; flags [int].  body = 4+2+4 = 10
+		{"DSE v1 execute, no result metadata id", dse1, "41 00 0001 0a 0000000a 0002 cafe 0001 00000000",
+			respFrame(dse1, 1, 10, &message.Execute{QueryId: id, Options: &message.QueryOptions{Consistency: clOne}})},
+		// v5 4.1.5: <query><flags>[<keyspace>].  body = 5+4+4 = 13 / 5+4 = 9
+		{"v5 prepare, with keyspace", v5, "05 00 0001 09 0000000d " + hxQ + " 00000001 0002 6b73", respFrame(v5, 1, 13, &message.Prepare{Query: "q", Keyspace: "ks"})},
+		{"v5 prepare, flags 0", v5, "05 00 0001 09 00000009 " + hxQ + " 00000000", respFrame(v5, 1, 9, &message.Prepare{Query: "q"})},
+		// dse_protocol_v1.spec 4.1.5 / 10: no flags in PREPARE; dse_protocol_v2.spec 4.1.5: flags and keyspace
+		{"DSE v1 prepare, no flags", dse1, "41 00 0001 09 00000005 " + hxQ, respFrame(dse1, 1, 5, &message.Prepare{Query: "q"})},
+		{"DSE v2 prepare, with keyspace", dse2, "42 00 0001 09 0000000d " + hxQ + " 00000001 0002 6b73", respFrame(dse2, 1, 13, &message.Prepare{Query: "q", Keyspace: "ks"})},
+		// v2 4.1.7: <type><n><query_1>...<query_n><consistency>, no flags; kind 0 with one value, kind 1 without.
+		// body = 1+2+(1+5+2+5)+(1+4+2)+2 = 25
+		{"v2 batch, kinds 0 and 1, no flags", v2, "02 00 01 0d 00000019 01 0002 00 " + hxQ + " 0001 00000001 07 01 0002 cafe 0000 0004",
+			respFrame(v2, 1, 25, &message.Batch{Type: primitive.BatchTypeUnlogged, Consistency: clQuorum,
+				Children: []*message.BatchChild{{Query: "q", Values: v7}, {Id: id, Values: []*primitive.Value{}}}})},
+		// v3 4.1.7: flags [byte] 0x30 = serial consistency + timestamp.  body = 1+2+(1+5+2)+2+1+2+8 = 24
+		{"v3 batch, serial consistency and timestamp", v3, "03 00 0001 0d 00000018 00 0001 00 " + hxQ + " 0000 0001 30 0008 00000000000004d2",
+			respFrame(v3, 1, 24, &message.Batch{Type: primitive.BatchTypeLogged, Consistency: clOne, Children: []*message.BatchChild{{Query: "q", Values: []*primitive.Value{}}},
+				SerialConsistency: clp(primitive.ConsistencyLevelSerial), DefaultTimestamp: i64p(1234)})},
+		// v3 4.1.7: the flags byte is mandatory in v3; a v2-shaped batch (ending after <consistency>) is truncated.  body = 1+2+2 = 5
+		{"v3 batch, v2 layout without flags", v3, "03 00 0001 0d 00000005 00 0000 0001", nil},
+		// v5 4.1.7: flags [int] 0x0180 keyspace + now_in_seconds, counter batch without queries.  body = 1+2+2+4+4+4 = 17
+		{"v5 batch, keyspace and now_in_seconds", v5, "05 00 0001 0d 00000011 02 0000 0001 00000180 0002 6b73 0000000a",
+			respFrame(v5, 1, 17, &message.Batch{Type: primitive.BatchTypeCounter, Consistency: clOne, Children: []*message.BatchChild{}, Keyspace: "ks", NowInSeconds: i32p(10)})},
+		// v4 4.1.7: "<kind> value must be either 0 or 1".  body = 1+2+1+5+2+2+1 = 14
+		{"v4 batch, child of kind 2", v4, "04 00 0001 0d 0000000e 00 0001 02 " + hxQ + " 0000 0001 00", nil},
+		// v4 4.1.7: <type> is 0, 1 or 2.  body = 1+2+2+1 = 6
+		{"v4 batch, type 3", v4, "04 00 0001 0d 00000006 03 0000 0001 00", nil},
+		// v4 4.1.7: <value_i> is a [value]: -2 is "not set".  body = 1+2+1+4+2+4+2+1 = 17
+		{"v4 batch, value not set", v4, "04 00 0001 0d 00000011 00 0001 01 0002 cafe 0001 fffffffe 0001 00",
+			respFrame(v4, 1, 17, &message.Batch{Type: primitive.BatchTypeLogged, Consistency: clOne, Children: []*message.BatchChild{{Id: id, Values: []*primitive.Value{primitive.NewUnsetValue()}}}})},
+		// dse_protocol_v2.spec 4.1.7: flags [int], 0x80 keyspace.  body = 1+2+2+4+4 = 13
+		{"DSE v2 batch, keyspace", dse2, "42 00 0001 0d 0000000d 00 0000 0001 00000080 0002 6b73",
+			respFrame(dse2, 1, 13, &message.Batch{Type: primitive.BatchTypeLogged, Consistency: clOne, Children: []*message.BatchChild{}, Keyspace: "ks"})},
+		// dse_protocol_v1.spec 4.1.7: flags [int], 0x10 serial consistency.  body = 1+2+2+4+2 = 11
+		{"DSE v1 batch, int flags, serial consistency", dse1, "41 00 0001 0d 0000000b 00 0000 0001 00000010 0009",
+			respFrame(dse1, 1, 11, &message.Batch{Type: primitive.BatchTypeLogged, Consistency: clOne, Children: []*message.BatchChild{}, SerialConsistency: clp(primitive.ConsistencyLevelLocalSerial)})},
+	}
+}
+
+// RESULT (4.2.5): Rows metadata, column types, Prepared, Schema_change
+func specCasesResult() []specCase {
+	id := []byte{0xca, 0xfe}
+	rmid := []byte{0xba, 0xbe}
+	cInt := []*message.ColumnMetadata{col("c", datatype.Int)}
+	udt := &datatype.UserDefined{Keyspace: "ks", Name: "u", FieldNames: []string{"f", "g"},
+		FieldTypes: []datatype.DataType{datatype.Date, datatype.NewTuple(datatype.Time, datatype.Smallint)}}
+	emptyRM := &message.RowsMetadata{ColumnCount: 0}
+	tail := " " + hxGspec + " " + hxColC + " 0009 00000000" // <global_table_spec> "c" int, 0 rows: 7+5+4 = 16 bytes
+	return []specCase{
+		// v4 4.2.5.2: Global_tables_spec clear: every <col_spec_i> carries <ksname><tablename>.  One row: int 42, empty varchar.
+		// body = 4+4+4+(4+3+3+2)+(4+3+3+2)+4+8+4 = 52
+		{"v4 rows, no global table spec, two tables", v4, "84 00 0001 08 00000034 00000002 00000000 00000002 0002 6b73 0001 74 0001 61 0009 0002 6b32 0001 75 0001 62 000d 00000001 00000004 0000002a 00000000",
+			respFrame(v4, 1, 52, &message.RowsResult{Metadata: &message.RowsMetadata{ColumnCount: 2, Columns: []*message.ColumnMetadata{
+				{Keyspace: "ks", Table: "t", Name: "a", Type: datatype.Int}, {Keyspace: "k2", Table: "u", Name: "b", Type: datatype.Varchar}}},
+				Data: message.RowSet{{{0, 0, 0, 42}, {}}}})},
+		// v4 4.2.5.2: flags 0x03 Global_tables_spec + Has_more_pages: <paging_state> precedes the table spec.  body = 4+4+4+6+16 = 34
+		{"v4 rows, has more pages", v4, "84 00 0001 08 00000022 00000002 00000003 00000001 00000002 beef" + tail,
+			respFrame(v4, 1, 34, &message.RowsResult{Metadata: &message.RowsMetadata{ColumnCount: 1, PagingState: []byte{0xbe, 0xef}, Columns: cInt}, Data: message.RowSet{}})},
+		// v4 4.2.5.2: flags 0x06 No_metadata + Has_more_pages, 2 columns, one row (01, null).  body = 4+4+4+5+4+5+4 = 30
+		{"v4 rows, no metadata, paging state, one row", v4, "84 00 0001 08 0000001e 00000002 00000006 00000002 00000001 aa 00000001 00000001 01 ffffffff",
+			respFrame(v4, 1, 30, &message.RowsResult{Metadata: &message.RowsMetadata{ColumnCount: 2, PagingState: []byte{0xaa}}, Data: message.RowSet{{{1}, nil}}})},
+		// v4 4.2.5.2 No_metadata: "no <global_table_spec> nor <col_spec_i>" even when Global_tables_spec is set too (flags 0x05).  body = 16
+		{"v4 rows, no metadata wins over global table spec", v4, "84 00 0001 08 00000010 00000002 00000005 00000001 00000000",
+			respFrame(v4, 1, 16, &message.RowsResult{Metadata: &message.RowsMetadata{ColumnCount: 1}, Data: message.RowSet{}})},
+		// v4 4.2.5.2: Global_tables_spec with 0 columns: the table spec is present, no <col_spec_i> follows.  body = 4+4+4+7+4 = 23
+		{"v4 rows, global table spec and no column", v4, "84 00 0001 08 00000017 00000002 00000001 00000000 " + hxGspec + " 00000000",
+			respFrame(v4, 1, 23, &message.RowsResult{Metadata: &message.RowsMetadata{ColumnCount: 0, Columns: []*message.ColumnMetadata{}}, Data: message.RowSet{}})},
+		// v4 4.2.5.2: <rows_content> is (<rows_count> * <columns_count>) [bytes]: three rows of no column are no byte.  body = 4+4+4+4 = 16
+		{"v4 rows, three rows of zero columns", v4, "84 00 0001 08 00000010 00000002 00000004 00000000 00000003",
+			respFrame(v4, 1, 16, &message.RowsResult{Metadata: &message.RowsMetadata{ColumnCount: 0}, Data: message.RowSet{{}, {}, {}}})},
+		// v5 4.2.5.2: flags 0x09 Metadata_changed: <new_metadata_id> [short bytes] after the (absent) paging state.  body = 4+4+4+4+16 = 32
+		{"v5 rows, metadata changed", v5, "85 00 0001 08 00000020 00000002 00000009 00000001 0002 babe" + tail,
+			respFrame(v5, 1, 32, &message.RowsResult{Metadata: &message.RowsMetadata{ColumnCount: 1, NewResultMetadataId: rmid, Columns: cInt}, Data: message.RowSet{}})},
+		// v5 4.2.5.2: flags 0x0b: [<paging_state>][<new_metadata_id>] in that order.  body = 4+4+4+6+4+16 = 38
+		{"v5 rows, paging state then new metadata id", v5, "85 00 0001 08 00000026 00000002 0000000b 00000001 00000002 beef 0002 babe" + tail,
+			respFrame(v5, 1, 38, &message.RowsResult{Metadata: &message.RowsMetadata{ColumnCount: 1, PagingState: []byte{0xbe, 0xef}, NewResultMetadataId: rmid, Columns: cInt}, Data: message.RowSet{}})},
+		// v4 4.2.5.2 defines flags 0x01, 0x02, 0x04 only: 0x08 (Metadata_changed, v5) has no meaning in v4.  body = 32
+		// FAILS on /repo HEAD (accepted, NewResultMetadataId = babe): decodeRowsMetadata does not gate flag bits by version
+		{"v4 rows, flag 0x08 is not defined by v4", v4, "84 00 0001 08 00000020 00000002 00000009 00000001 0002 babe" + tail, nil},
+		// dse_protocol_v1.spec 4.2.5.2: flags 0xc0000003 global + more pages + continuous paging + last page: [<paging_state>][<continuous_page_no>].
+		// body = 4+4+4+6+4+16 = 38
+		{"DSE v1 rows, last continuous page", dse1, "c1 00 0001 08 00000026 00000002 c0000003 00000001 00000002 beef 00000007" + tail,
+			respFrame(dse1, 1, 38, &message.RowsResult{Metadata: &message.RowsMetadata{ColumnCount: 1, PagingState: []byte{0xbe, 0xef}, ContinuousPageNumber: 7, LastContinuousPage: true, Columns: cInt}, Data: message.RowSet{}})},
+		// dse_protocol_v2.spec 4.2.5.2: [<paging_state>][<new_metadata_id>][<continuous_page_no>], flags 0x4000000b.  body = 4+4+4+6+4+4+16 = 42
+		{"DSE v2 rows, paging state, new metadata id, continuous page", dse2, "c2 00 0001 08 0000002a 00000002 4000000b 00000001 00000002 beef 0002 babe 00000007" + tail,
+			respFrame(dse2, 1, 42, &message.RowsResult{Metadata: &message.RowsMetadata{ColumnCount: 1, PagingState: []byte{0xbe, 0xef}, NewResultMetadataId: rmid, ContinuousPageNumber: 7, Columns: cInt}, Data: message.RowSet{}})},
+		// v4 4.2.5.2 option ids: custom, list, map, set, UDT, tuple, date, time, smallint, tinyint.  body = 4+4+4+7+10+13+30+5+4 = 81
+		{"v4 rows, custom, nested collections, udt, tuple, v4 scalars", v4, "84 00 0001 08 00000051 00000002 00000001 00000004 " + hxGspec + hxTypes + " 00000000",
+			respFrame(v4, 1, 81, &message.RowsResult{Metadata: &message.RowsMetadata{ColumnCount: 4, Columns: []*message.ColumnMetadata{
+				col("a", datatype.NewCustom("x.Y")), col("b", datatype.NewList(datatype.NewMap(datatype.Int, datatype.NewSet(datatype.Varchar)))), col("c", udt), col("d", datatype.Tinyint)}},
+				Data: message.RowSet{}})},
+		// 0x0015 Duration: v5 4.2.5.2 and dse_protocol_v1.spec 4.2.5.2 list it, v4 4.2.5.2 does not.  body = 4+4+4+7+3+2+4 = 28
+		{"v5 rows, duration", v5, "85 00 0001 08 0000001c " + hxOneCI + "0015 00000000", respFrame(v5, 1, 28, oneCol(datatype.Duration))},
+		{"DSE v1 rows, duration", dse1, "c1 00 0001 08 0000001c " + hxOneCI + "0015 00000000", respFrame(dse1, 1, 28, oneCol(datatype.Duration))},
+		// FAILS on /repo HEAD (accepted): CheckValidDataTypeCode ignores its version argument
+		{"v4 rows, type 0x0015 duration is not defined by v4", v4, "84 00 0001 08 0000001c " + hxOneCI + "0015 00000000", nil},
+		// v3 4.2.5.2 stops at 0x0010 Inet among the scalars: 0x0011 Date .. 0x0014 Tinyint are v4 ("Changes from v3").  body = 28
+		// FAILS on /repo HEAD (both accepted)
+		{"v3 rows, type 0x0011 date is not defined by v3", v3, "83 00 0001 08 0000001c " + hxOneCI + "0011 00000000", nil},
+		{"v3 rows, type 0x0014 tinyint is not defined by v3", v3, "83 00 0001 08 0000001c " + hxOneCI + "0014 00000000", nil},
+		// v2 4.2.5.2 has neither 0x0030 UDT nor 0x0031 Tuple (v3 "Changes from v2").  udt ks.u without fields: body = 4+4+4+7+3+(2+4+3+2)+4 = 37;
+		// tuple<int>: body = 4+4+4+7+3+(2+2+2)+4 = 32
+		// FAILS on /repo HEAD (both accepted)
+		{"v2 rows, type 0x0030 udt is not defined by v2", v2, "82 00 01 08 00000025 " + hxOneCI + "0030 0002 6b73 0001 75 0000 00000000", nil},
+		{"v2 rows, type 0x0031 tuple is not defined by v2", v2, "82 00 01 08 00000020 " + hxOneCI + "0031 0001 0009 00000000", nil},
+		// the same bytes under v3, where 4.2.5.2 defines them
+		{"v3 rows, udt without fields", v3, "83 00 0001 08 00000025 " + hxOneCI + "0030 0002 6b73 0001 75 0000 00000000",
+			respFrame(v3, 1, 37, oneCol(&datatype.UserDefined{Keyspace: "ks", Name: "u", FieldNames: []string{}, FieldTypes: []datatype.DataType{}}))},
+		{"v3 rows, tuple<int>", v3, "83 00 0001 08 00000020 " + hxOneCI + "0031 0001 0009 00000000", respFrame(v3, 1, 32, oneCol(datatype.NewTuple(datatype.Int)))},
+		// v5 4.2.5.2: 0x0016 is no option id
+		{"v5 rows, type 0x0016 is not defined", v5, "85 00 0001 08 0000001c " + hxOneCI + "0016 00000000", nil},
+
+		// v4 4.2.5.4: <flags><columns_count><pk_count>[<pk_index_i>][<global_table_spec>?<col_spec_i>]; pk indices [1, 0].
+		// body = 4+4+(4+4+4+4+7+5+5)+8 = 49
+		{"v4 prepared, pk indices, global table spec", v4, "84 00 0001 08 00000031 00000004 0002 cafe 00000001 00000002 00000002 0001 0000 " + hxGspec + " 0001 61 0009 0001 62 000d 00000004 00000000",
+			respFrame(v4, 1, 49, &message.PreparedResult{PreparedQueryId: id, VariablesMetadata: &message.VariablesMetadata{PkIndices: []uint16{1, 0},
+				Columns: []*message.ColumnMetadata{col("a", datatype.Int), col("b", datatype.Varchar)}}, ResultMetadata: emptyRM})},
+		// v4 4.2.5.4: variables without Global_tables_spec, pk_count 0; result metadata with one column.  body = 4+4+(4+4+4+12)+(4+4+7+5) = 52
+		{"v4 prepared, per-column table spec, result metadata", v4, "84 00 0001 08 00000034 00000004 0002 cafe 00000000 00000001 00000000 0002 6b73 0001 74 0001 61 0009 00000001 00000001 " + hxGspec + " " + hxColC + " 000d",
+			respFrame(v4, 1, 52, &message.PreparedResult{PreparedQueryId: id, VariablesMetadata: &message.VariablesMetadata{Columns: []*message.ColumnMetadata{col("a", datatype.Int)}},
+				ResultMetadata: &message.RowsMetadata{ColumnCount: 1, Columns: []*message.ColumnMetadata{col("c", datatype.Varchar)}}})},
+		// v3 4.2.5.4: <metadata> is a Rows metadata: no <pk_count>.  body = 4+4+(4+4+7+5)+8 = 36
+		{"v3 prepared, no pk count", v3, "83 00 0001 08 00000024 00000004 0002 cafe 00000001 00000001 " + hxGspec + " " + hxColC + " 0009 00000004 00000000",
+			respFrame(v3, 1, 36, &message.PreparedResult{PreparedQueryId: id, VariablesMetadata: &message.VariablesMetadata{Columns: cInt}, ResultMetadata: emptyRM})},
+		// v2 4.2.5.4: "<metadata> is defined exactly as for a Rows RESULT (... you can however assume that the Has_more_pages flag is always off)":
+		// the No_metadata flag (0x04) is part of that definition: 2 bind markers, no <col_spec_i>.  body = 4+4+8+8 = 24
+		// FAILS on /repo HEAD (decode error): decodeVariablesMetadata ignores No_metadata and reads two column specifications
+		{"v2 prepared, bind metadata with the No_metadata flag", v2, "82 00 01 08 00000018 00000004 0002 cafe 00000004 00000002 00000004 00000000",
+			respFrame(v2, 1, 24, &message.PreparedResult{PreparedQueryId: id, VariablesMetadata: &message.VariablesMetadata{}, ResultMetadata: emptyRM})},
+		// v4 4.2.5.4: "<global_table_spec> is present if the Global_tables_spec is set in <flags>" - also with 0 bind markers.
+		// body = 4+4+12+7+8 = 35
+		// FAILS on /repo HEAD: decodeVariablesMetadata skips the table spec when columns_count = 0 (decodeRowsMetadata reads it, see
+		// "v4 rows, global table spec and no column"); the table spec is then taken for the result metadata
+		{"v4 prepared, global table spec and no bind marker", v4, "84 00 0001 08 00000023 00000004 0002 cafe 00000001 00000000 00000000 " + hxGspec + " 00000004 00000000",
+			respFrame(v4, 1, 35, &message.PreparedResult{PreparedQueryId: id, VariablesMetadata: &message.VariablesMetadata{}, ResultMetadata: emptyRM})},
+		// v5 4.2.5.4 / dse_protocol_v2.spec 4.2.5.4: <id><result_metadata_id><metadata><result_metadata>.  body = 4+4+4+20 = 32
+		{"v5 prepared, result metadata id", v5, "85 00 0001 08 00000020 00000004 0002 cafe 0002 babe " + hxPrep0,
+			respFrame(v5, 1, 32, &message.PreparedResult{PreparedQueryId: id, ResultMetadataId: rmid, VariablesMetadata: &message.VariablesMetadata{}, ResultMetadata: emptyRM})},
+		{"DSE v2 prepared, result metadata id", dse2, "c2 00 0001 08 00000020 00000004 0002 cafe 0002 babe " + hxPrep0,
+			respFrame(dse2, 1, 32, &message.PreparedResult{PreparedQueryId: id, ResultMetadataId: rmid, VariablesMetadata: &message.VariablesMetadata{}, ResultMetadata: emptyRM})},
+		// dse_protocol_v1.spec 4.2.5.4: <id><metadata><result_metadata> (v4 layout).  body = 4+4+20 = 28
+		{"DSE v1 prepared, no result metadata id", dse1, "c1 00 0001 08 0000001c 00000004 0002 cafe " + hxPrep0,
+			respFrame(dse1, 1, 28, &message.PreparedResult{PreparedQueryId: id, VariablesMetadata: &message.VariablesMetadata{}, ResultMetadata: emptyRM})},
+
+		// v2 4.2.5.5: <change><keyspace><table>, <table> empty for a keyspace.  body = 4+9+4+2 = 19 / 4+9+4+3 = 20
+		{"v2 schema change result, keyspace", v2, "82 00 01 08 00000013 00000005 " + hxCre + " " + hxKs + " 0000",
+			respFrame(v2, 1, 19, &message.SchemaChangeResult{ChangeType: primitive.SchemaChangeTypeCreated, Target: primitive.SchemaChangeTargetKeyspace, Keyspace: "ks"})},
+		{"v2 schema change result, table", v2, "82 00 01 08 00000014 00000005 " + hxUpd + " " + hxKs + " " + hxT,
+			respFrame(v2, 1, 20, &message.SchemaChangeResult{ChangeType: primitive.SchemaChangeTypeUpdated, Target: primitive.SchemaChangeTargetTable, Keyspace: "ks", Object: "t"})},
+		// v3 4.2.5.5 + 4.2.6: <change_type><target><options>, target "TYPE".  body = 4+9+6+4+3 = 26
+		{"v3 schema change result, type", v3, "83 00 0001 08 0000001a 00000005 " + hxUpd + " 0004 54595045 " + hxKs + " 0001 75",
+			respFrame(v3, 1, 26, &message.SchemaChangeResult{ChangeType: primitive.SchemaChangeTypeUpdated, Target: primitive.SchemaChangeTargetType, Keyspace: "ks", Object: "u"})},
+		// v4 4.2.6: FUNCTION: keyspace, name, [string list] of argument types ("int", "text").  body = 4+9+10+4+3+(2+5+6) = 43
+		{"v4 schema change result, function with arguments", v4, "84 00 0001 08 0000002b 00000005 " + hxDro + " " + hxFun + " " + hxKs + " 0001 66 0002 0003 696e74 0004 74657874",
+			respFrame(v4, 1, 43, &message.SchemaChangeResult{ChangeType: primitive.SchemaChangeTypeDropped, Target: primitive.SchemaChangeTargetFunction, Keyspace: "ks", Object: "f", Arguments: []string{"int", "text"}})},
+		// v3 4.2.6 knows KEYSPACE, TABLE and TYPE only: the same bytes are not defined by v3
+		{"v3 schema change result, target FUNCTION is not defined by v3", v3, "83 00 0001 08 0000002b 00000005 " + hxDro + " " + hxFun + " " + hxKs + " 0001 66 0002 0003 696e74 0004 74657874", nil},
+		// v4 4.2.6: AGGREGATE with an empty argument list.  body = 4+9+11+4+3+2 = 33
+		{"v4 schema change result, aggregate without arguments", v4, "84 00 0001 08 00000021 00000005 " + hxCre + " " + hxAgg + " " + hxKs + " 0001 61 0000",
+			respFrame(v4, 1, 33, &message.SchemaChangeResult{ChangeType: primitive.SchemaChangeTypeCreated, Target: primitive.SchemaChangeTargetAggregate, Keyspace: "ks", Object: "a", Arguments: []string{}})},
+		// 4.2.5: kinds 0x0001..0x0005
+		{"v4 result, kind 6 is not defined", v4, "84 00 0001 08 00000004 00000006", nil},
+	}
+}
+
+// ERROR (4.2.1 and the section "Error codes": 8 in v2 and v5, 9 in v3, v4 and the DSE specifications)
+func specCasesError() []specCase {
+	lo4 := net.IPv4(127, 0, 0, 1)
+	ten := net.IPv4(10, 0, 0, 1)
+	return []specCase{
+		// v4 9: 0x1000 <cl><required><alive>.  body = 4+3+2+4+4 = 17
+		{"v4 error, unavailable", v4, "84 00 0001 00 00000011 00001000 " + hxM + " 0004 00000003 00000002",
+			respFrame(v4, 1, 17, &message.Unavailable{ErrorMessage: "m", Consistency: clQuorum, Required: 3, Alive: 2})},
+		// v4 9: 0x1100 <cl><received><blockfor><writeType>.  body = 4+3+2+4+4+11 = 28
+		{"v4 error, write timeout BATCH_LOG", v4, "84 00 0001 00 0000001c 00001100 " + hxM + " 0001 00000001 00000002 0009 42415443485f4c4f47",
+			respFrame(v4, 1, 28, &message.WriteTimeout{ErrorMessage: "m", Consistency: clOne, Received: 1, BlockFor: 2, WriteType: primitive.WriteTypeBatchLog})},
+		// v5 8: 0x1100 ...<writeType><contentions>, "<contentions> is a [short] ... only presents when the <writeType> is CAS".  body = 4+18+2 = 24
+		{"v5 error, write timeout CAS with contentions", v5, "85 00 0001 00 00000018 00001100 " + hxCAS + " 0005",
+			respFrame(v5, 1, 24, &message.WriteTimeout{ErrorMessage: "m", Consistency: primitive.ConsistencyLevelSerial, Received: 1, BlockFor: 2, WriteType: primitive.WriteTypeCas, Contentions: 5})},
+		// v4 9 and dse_protocol_v2.spec 9: no <contentions>.  body = 4+18 = 22
+		{"v4 error, write timeout CAS without contentions", v4, "84 00 0001 00 00000016 00001100 " + hxCAS,
+			respFrame(v4, 1, 22, &message.WriteTimeout{ErrorMessage: "m", Consistency: primitive.ConsistencyLevelSerial, Received: 1, BlockFor: 2, WriteType: primitive.WriteTypeCas})},
+		{"DSE v2 error, write timeout CAS without contentions", dse2, "c2 00 0001 00 00000016 00001100 " + hxCAS,
+			respFrame(dse2, 1, 22, &message.WriteTimeout{ErrorMessage: "m", Consistency: primitive.ConsistencyLevelSerial, Received: 1, BlockFor: 2, WriteType: primitive.WriteTypeCas})},
+		// v5 8: a write type other than CAS has no <contentions>.  body = 4+3+2+4+4+8 = 25
+		{"v5 error, write timeout SIMPLE", v5, "85 00 0001 00 00000019 00001100 " + hxM + " 0001 00000001 00000002 0006 53494d504c45",
+			respFrame(v5, 1, 25, &message.WriteTimeout{ErrorMessage: "m", Consistency: clOne, Received: 1, BlockFor: 2, WriteType: primitive.WriteTypeSimple})},
+		// v4 9: 0x1200 <data_present> "If its value is 0 ... Otherwise, the value is != 0": 0x02 is true.  body = 4+3+2+4+4+1 = 18
+		{"v4 error, read timeout with data_present 0x02", v4, "84 00 0001 00 00000012 00001200 " + hxM + " 0001 00000001 00000002 02",
+			respFrame(v4, 1, 18, &message.ReadTimeout{ErrorMessage: "m", Consistency: clOne, Received: 1, BlockFor: 2, DataPresent: true})},
+		// v4 9: 0x1300 <cl><received><blockfor><numfailures><data_present>.  body = 17+4+1 = 22
+		{"v4 error, read failure with numfailures", v4, "84 00 0001 00 00000016 " + hxRF + " 00000001 00",
+			respFrame(v4, 1, 22, &message.ReadFailure{ErrorMessage: "m", Consistency: clOne, Received: 1, BlockFor: 2, NumFailures: 1})},
+		// v3 9 has no 0x1300 (v4 10: "Read_failure error code was added").
+		// FAILS on /repo HEAD (accepted): the ERROR decoder does not gate codes by version
+		{"v3 error, code 0x1300 is not defined by v3", v3, "83 00 0001 00 00000016 " + hxRF + " 00000001 00", nil},
+		// v5 8: 0x1300 <reasonmap>: [int] n, n x (<endpoint> [inetaddr], <failurecode> [short]); IPv4 and IPv6 endpoints.
+		// body = 17+4+(1+4+2)+(17+2)+1 = 48
+		{"v5 error, read failure with reason map", v5, "85 00 0001 00 00000030 " + hxRF + " 00000002 04 7f000001 0001 " + hxIPv6 + " 0002 01",
+			respFrame(v5, 1, 48, &message.ReadFailure{ErrorMessage: "m", Consistency: clOne, Received: 1, BlockFor: 2, DataPresent: true, FailureReasons: []*primitive.FailureReason{
+				{Endpoint: lo4, Code: primitive.FailureCodeTooManyTombstonesRead}, {Endpoint: net.ParseIP("2001:db8::1"), Code: primitive.FailureCodeIndexNotAvailable}}})},
+		// dse_protocol_v1.spec 9: "Any other value for <failurecode> must be considered as an Unknown reason (but drivers should not fail)
+		// as new <failurecode> may be added without a bump of the protocol version".  body = 17+4+7+1 = 29
+		// FAILS on /repo HEAD: ReadReasonMap -> CheckValidFailureCode: "invalid failure code: FailureCode ? [0x0007]"
+		{"DSE v1 error, read failure with the unlisted failure code 7", dse1, "c1 00 0001 00 0000001d " + hxRF + " 00000001 04 0a000001 0007 00",
+			respFrame(dse1, 1, 29, &message.ReadFailure{ErrorMessage: "m", Consistency: clOne, Received: 1, BlockFor: 2, FailureReasons: []*primitive.FailureReason{{Endpoint: ten, Code: primitive.FailureCode(7)}}})},
+		// v5 8: "<failurecode> is a [short]" without any enumeration.  body = 29
+		// FAILS on /repo HEAD: "invalid failure code: FailureCode ? [0x0100]"
+		{"v5 error, read failure with failure code 0x0100", v5, "85 00 0001 00 0000001d " + hxRF + " 00000001 04 0a000001 0100 00",
+			respFrame(v5, 1, 29, &message.ReadFailure{ErrorMessage: "m", Consistency: clOne, Received: 1, BlockFor: 2, FailureReasons: []*primitive.FailureReason{{Endpoint: ten, Code: primitive.FailureCode(0x100)}}})},
+		// dse_protocol_v2.spec 9: failure code 0x0006 (keyspace not found).  body = 29
+		{"DSE v2 error, read failure with failure code 6", dse2, "c2 00 0001 00 0000001d " + hxRF + " 00000001 04 0a000001 0006 00",
+			respFrame(dse2, 1, 29, &message.ReadFailure{ErrorMessage: "m", Consistency: clOne, Received: 1, BlockFor: 2, FailureReasons: []*primitive.FailureReason{{Endpoint: ten, Code: primitive.FailureCodeKeyspaceNotFound}}})},
+		// v5 8: 0x1500 <cl><received><blockfor><reasonmap><write_type>, empty map, "VIEW".  body = 4+3+2+4+4+4+6 = 27
+		{"v5 error, write failure VIEW, empty reason map", v5, "85 00 0001 00 0000001b 00001500 " + hxM + " 0001 00000000 00000001 00000000 0004 56494557",
+			respFrame(v5, 1, 27, &message.WriteFailure{ErrorMessage: "m", Consistency: clOne, Received: 0, BlockFor: 1, FailureReasons: []*primitive.FailureReason{}, WriteType: primitive.WriteTypeView})},
+		// v4 9: 0x1500 <numfailures><writeType> "COUNTER".  body = 4+3+2+4+4+4+9 = 30
+		{"v4 error, write failure COUNTER with numfailures", v4, "84 00 0001 00 0000001e 00001500 " + hxM + " 0001 00000000 00000001 00000001 0007 434f554e544552",
+			respFrame(v4, 1, 30, &message.WriteFailure{ErrorMessage: "m", Consistency: clOne, Received: 0, BlockFor: 1, NumFailures: 1, WriteType: primitive.WriteTypeCounter})},
+		// v4 9: 0x1400 <keyspace><function><arg_types>.  body = 4+3+4+3+(2+5) = 21
+		{"v4 error, function failure", v4, "84 00 0001 00 00000015 00001400 " + hxM + " " + hxKs + " 0001 66 0001 0003 696e74",
+			respFrame(v4, 1, 21, &message.FunctionFailure{ErrorMessage: "m", Keyspace: "ks", Function: "f", Arguments: []string{"int"}})},
+		// v4 9: 0x2400 <ks><table>, "<table> will be present but will be the empty string".  body = 4+3+4+2 = 13
+		{"v4 error, already exists (keyspace)", v4, "84 00 0001 00 0000000d 00002400 " + hxM + " " + hxKs + " 0000",
+			respFrame(v4, 1, 13, &message.AlreadyExists{ErrorMessage: "m", Keyspace: "ks"})},
+		// v4 9: 0x2500 [short bytes].  body = 4+3+4 = 11
+		{"v4 error, unprepared", v4, "84 00 0001 00 0000000b 00002500 " + hxM + " 0002 cafe",
+			respFrame(v4, 1, 11, &message.Unprepared{ErrorMessage: "m", Id: []byte{0xca, 0xfe}})},
+		// v2 8: 0x0100 Bad credentials.  body = 4+3 = 7
+		{"v2 error, bad credentials", v2, "82 00 01 00 00000007 00000100 " + hxM, respFrame(v2, 1, 7, &message.AuthenticationError{ErrorMessage: "m"})},
+		// no specification lists 0x1234
+		{"v4 error, code 0x1234 is not defined", v4, "84 00 0001 00 00000007 00001234 " + hxM, nil},
+		// v4 9 has no 0x1700
+		{"v4 error, code 0x1700 is not defined by v4", v4, "84 00 0001 00 00000011 00001700 " + hxM + " 0008 00000001 00000002", nil},
+		// v5 8: 0x1700 CAS_WRITE_UNKNOWN <cl><received><blockfor>.  body = 4+3+2+4+4 = 17
+		// FAILS on /repo HEAD: "unknown ERROR code: 5888"; the library has no message type for this code, the expected message below is a
+		// stand-in that only marks the bytes as defined by the specification
+		{"v5 error, CAS_WRITE_UNKNOWN 0x1700", v5, "85 00 0001 00 00000011 00001700 " + hxM + " 0008 00000001 00000002",
+			respFrame(v5, 1, 17, &message.ServerError{ErrorMessage: "stand-in: no Go type for CAS_WRITE_UNKNOWN"})},
+		// v5 8: 0x1600 CDC_WRITE_FAILURE (listed; "// todo": no content after <code><message>).  body = 7
+		// FAILS on /repo HEAD: "unknown ERROR code: 5632"; stand-in expectation as above
+		{"v5 error, CDC_WRITE_FAILURE 0x1600", v5, "85 00 0001 00 00000007 00001600 " + hxM,
+			respFrame(v5, 1, 7, &message.ServerError{ErrorMessage: "stand-in: no Go type for CDC_WRITE_FAILURE"})},
+		// dse_protocol_v1.spec 9 (and v2): 0x8000 Client_write_failure, no additional content.  body = 7
+		// FAILS on /repo HEAD: "unknown ERROR code: 32768"; stand-in expectation as above
+		{"DSE v1 error, Client_write_failure 0x8000", dse1, "c1 00 0001 00 00000007 00008000 " + hxM,
+			respFrame(dse1, 1, 7, &message.ServerError{ErrorMessage: "stand-in: no Go type for Client_write_failure"})},
+	}
+}
+
+// EVENT (4.2.6); "All EVENT messages have a streamId of -1"
+func specCasesEvent() []specCase {
+	v6 := net.ParseIP("2001:db8::1")
+	return []specCase{
+		// v4 4.2.6 TOPOLOGY_CHANGE: [string] "NEW_NODE", [inet] = size 4, address, [int] port 9042.  body = 17+10+(1+4+4) = 36
+		{"v4 event, topology change NEW_NODE, IPv4", v4, "84 00 ffff 0c 00000024 " + hxTopo + " 0008 4e45575f4e4f4445 04 c0a80001 00002352",
+			respFrame(v4, -1, 36, &message.TopologyChangeEvent{ChangeType: primitive.TopologyChangeTypeNewNode, Address: &primitive.Inet{Addr: net.IPv4(192, 168, 0, 1), Port: 9042}})},
+		// v3 4.2.6 ("NEW_NODE", "REMOVED_NODE", or "MOVED_NODE"), 16-byte address.  body = 17+12+(17+4) = 50
+		{"v3 event, topology change MOVED_NODE, IPv6", v3, "83 00 ffff 0c 00000032 " + hxTopo + " 000a 4d4f5645445f4e4f4445 " + hxIPv6 + " 00002352",
+			respFrame(v3, -1, 50, &message.TopologyChangeEvent{ChangeType: primitive.TopologyChangeTypeMovedNode, Address: &primitive.Inet{Addr: v6, Port: 9042}})},
+		// v2 4.2.6 STATUS_CHANGE "DOWN"; v2 2.3: the stream id is one signed byte.  body = 15+6+9 = 30
+		{"v2 event, status change DOWN", v2, "82 00 ff 0c 0000001e " + hxStat + " 0004 444f574e 04 7f000001 00002352",
+			respFrame(v2, -1, 30, &message.StatusChangeEvent{ChangeType: primitive.StatusChangeTypeDown, Address: &primitive.Inet{Addr: net.IPv4(127, 0, 0, 1), Port: 9042}})},
+		// v5 4.2.6 STATUS_CHANGE "UP", 16-byte address.  body = 15+4+21 = 40
+		{"v5 event, status change UP, IPv6", v5, "85 00 ffff 0c 00000028 " + hxStat + " 0002 5550 " + hxIPv6 + " 00002352",
+			respFrame(v5, -1, 40, &message.StatusChangeEvent{ChangeType: primitive.StatusChangeTypeUp, Address: &primitive.Inet{Addr: v6, Port: 9042}})},
+		// v2 4.2.6 SCHEMA_CHANGE: 3 [string]: change, keyspace, table ("" for a keyspace).  body = 15+9+4+3 = 31 / 15+9+4+2 = 30
+		{"v2 event, schema change of a table", v2, "82 00 ff 0c 0000001f " + hxSchem + " " + hxDro + " " + hxKs + " " + hxT,
+			respFrame(v2, -1, 31, &message.SchemaChangeEvent{ChangeType: primitive.SchemaChangeTypeDropped, Target: primitive.SchemaChangeTargetTable, Keyspace: "ks", Object: "t"})},
+		{"v2 event, schema change of a keyspace", v2, "82 00 ff 0c 0000001e " + hxSchem + " " + hxCre + " " + hxKs + " 0000",
+			respFrame(v2, -1, 30, &message.SchemaChangeEvent{ChangeType: primitive.SchemaChangeTypeCreated, Target: primitive.SchemaChangeTargetKeyspace, Keyspace: "ks"})},
+		// v3 4.2.6: <change_type><target><options>; KEYSPACE has one option.  body = 15+9+10+4 = 38
+		{"v3 event, schema change, target KEYSPACE", v3, "83 00 ffff 0c 00000026 " + hxSchem + " " + hxCre + " 0008 4b45595350414345 " + hxKs,
+			respFrame(v3, -1, 38, &message.SchemaChangeEvent{ChangeType: primitive.SchemaChangeTypeCreated, Target: primitive.SchemaChangeTargetKeyspace, Keyspace: "ks"})},
+		// v5 4.2.6: FUNCTION with one argument type.  body = 15+9+10+4+3+(2+5) = 48
+		{"v5 event, schema change, function", v5, "85 00 ffff 0c 00000030 " + hxSchem + " " + hxCre + " " + hxFun + " " + hxKs + " 0001 66 0001 0003 696e74",
+			respFrame(v5, -1, 48, &message.SchemaChangeEvent{ChangeType: primitive.SchemaChangeTypeCreated, Target: primitive.SchemaChangeTargetFunction, Keyspace: "ks", Object: "f", Arguments: []string{"int"}})},
+		// dse_protocol_v1.spec 4.2.6: AGGREGATE without arguments.  body = 15+9+11+4+3+2 = 44
+		{"DSE v1 event, schema change, aggregate", dse1, "c1 00 ffff 0c 0000002c " + hxSchem + " " + hxDro + " " + hxAgg + " " + hxKs + " 0001 61 0000",
+			respFrame(dse1, -1, 44, &message.SchemaChangeEvent{ChangeType: primitive.SchemaChangeTypeDropped, Target: primitive.SchemaChangeTargetAggregate, Keyspace: "ks", Object: "a", Arguments: []string{}})},
+		// the same bytes under v3, whose 4.2.6 has no AGGREGATE target
+		{"v3 event, schema change target AGGREGATE is not defined by v3", v3, "83 00 ffff 0c 0000002c " + hxSchem + " " + hxDro + " " + hxAgg + " " + hxKs + " 0001 61 0000", nil},
+		// 4.2.6: the valid event types are TOPOLOGY_CHANGE, STATUS_CHANGE, SCHEMA_CHANGE
+		{"v4 event, type FOO is not defined", v4, "84 00 ffff 0c 00000005 0003 464f4f", nil},
+	}
+}
+
+// STARTUP (4.1.1), SUPPORTED (4.2.4), REGISTER (4.1.8), AUTH_* (4.1.2, 4.2.3, 4.2.7, 4.2.8), OPTIONS (4.1.3)
+func specCasesHandshake() []specCase {
+	return []specCase{
+		// v4 4.1.1: [string map]; an option the specification does not list is still a well-formed pair.  body = 2+20+3+3 = 28
+		{"v4 startup, extra unknown option", v4, "04 00 0000 01 0000001c 0002 " + hxCqlV + " 0001 58 0001 79",
+			respFrame(v4, 0, 28, &message.Startup{Options: map[string]string{"CQL_VERSION": "3.0.0", "X": "y"}})},
+		// v5 2.4.1.2: header flag 0x10 USE_BETA on STARTUP.  body = 2+20 = 22
+		{"v5 startup, USE_BETA flag", v5, "05 10 0000 01 00000016 0001 " + hxCqlV,
+			flagFrame(v5, primitive.HeaderFlagUseBeta, 0, 22, &frame.Body{Message: &message.Startup{Options: map[string]string{"CQL_VERSION": "3.0.0"}}})},
+		// v3 4.2.4: [string multimap], "COMPRESSION" -> ["lz4", "snappy"].  body = 2+13+2+5+8 = 30
+		{"v3 supported, one key with two values", v3, "83 00 0001 06 0000001e 0001 000b 434f4d5052455353494f4e 0002 0003 6c7a34 0006 736e61707079",
+			respFrame(v3, 1, 30, &message.Supported{Options: map[string][]string{"COMPRESSION": {"lz4", "snappy"}}})},
+		{"v2 supported, empty multimap", v2, "82 00 01 06 00000002 0000", respFrame(v2, 1, 2, &message.Supported{Options: map[string][]string{}})},
+		// v4 4.1.8: [string list] of the three event types of 4.2.6.  body = 2+17+15+15 = 49
+		{"v4 register, all event types", v4, "04 00 0001 0b 00000031 " + hxAllEv,
+			respFrame(v4, 1, 49, &message.Register{EventTypes: []primitive.EventType{primitive.EventTypeTopologyChange, primitive.EventTypeStatusChange, primitive.EventTypeSchemaChange}})},
+		{"v4 register, event type FOO is not defined", v4, "04 00 0001 0b 00000007 0001 0003 464f4f", nil},
+		// 4.1.2 / 4.2.7 / 4.2.8: a single [bytes] token, "when it can be null/empty ... depends on the actual authenticator"
+		{"v4 auth response, null token", v4, "04 00 0001 0f 00000004 ffffffff", respFrame(v4, 1, 4, &message.AuthResponse{Token: nil})},
+		{"v4 auth response, empty token", v4, "04 00 0001 0f 00000004 00000000", respFrame(v4, 1, 4, &message.AuthResponse{Token: []byte{}})},
+		{"v3 auth challenge, token of length -5 is null", v3, "83 00 0001 0e 00000004 fffffffb", respFrame(v3, 1, 4, &message.AuthChallenge{Token: nil})},
+		{"v5 auth success, two-byte token", v5, "85 00 0001 10 00000006 00000002 beef", respFrame(v5, 1, 6, &message.AuthSuccess{Token: []byte{0xbe, 0xef}})},
+		{"DSE v1 auth success, null token", dse1, "c1 00 0001 10 00000004 ffffffff", respFrame(dse1, 1, 4, &message.AuthSuccess{Token: nil})},
+		// v2 4.2.3: a single [string]
+		{"v2 authenticate", v2, "82 00 01 03 00000005 0003 612e42", respFrame(v2, 1, 5, &message.Authenticate{Authenticator: "a.B"})},
+		// v4 2.2 flag 0x02 on a request: "Other requests will simply ignore the tracing flag if set"; a request body has no tracing id
+		{"v4 options, tracing flag on a request", v4, "04 02 0001 05 00000000", flagFrame(v4, primitive.HeaderFlagTracing, 1, 0, &frame.Body{Message: &message.Options{}})},
+	}
+}
+
+// Header (section 2; 2.4.1 in v5) and the flag-dependent body prefix
+func specCasesHeader() []specCase {
+	uuid := &primitive.UUID{0x00, 0x11, 0x22, 0x33, 0x44, 0x55, 0x66, 0x77, 0x88, 0x99, 0xaa, 0xbb, 0xcc, 0xdd, 0xee, 0xff}
+	void := &message.VoidResult{}
+	return []specCase{
+		// v4 2.2 flag 0x02 on a response: "The tracing ID is a [uuid] and is the first thing in the frame body".  body = 16+4 = 20
+		{"v4 result void, tracing id", v4, "84 02 0001 08 00000014 " + hxUuid + " 00000001", flagFrame(v4, 0x02, 1, 20, &frame.Body{TracingId: uuid, Message: void})},
+		// v4 2.2 / v5 4: [<tracing_id>][<warnings>][<custom_payload>]<message>; warnings ["w"], payload {"k": aa}.  body = 16+(2+3)+(2+3+5)+4 = 35
+		{"v4 result void, tracing id, warnings, custom payload", v4, "84 0e 0001 08 00000023 " + hxUuid + " 0001 0001 77 0001 0001 6b 00000001 aa 00000001",
+			flagFrame(v4, 0x0e, 1, 35, &frame.Body{TracingId: uuid, Warnings: []string{"w"}, CustomPayload: map[string][]byte{"k": {0xaa}}, Message: void})},
+		// v2 2.2 flag 0x02 on a response, one-byte stream id.  body = 20
+		{"v2 result void, tracing id", v2, "82 02 01 08 00000014 " + hxUuid + " 00000001", flagFrame(v2, 0x02, 1, 20, &frame.Body{TracingId: uuid, Message: void})},
+		// v4 2.2 flag 0x04 on a request, [bytes map] with a null [bytes] value.  body = (2+3+4)+5+2+1 = 17
+		{"v4 query, custom payload with a null value", v4, "04 04 0001 07 00000011 0001 0001 6b ffffffff " + hxQ + " 0001 00",
+			flagFrame(v4, 0x04, 1, 17, &frame.Body{CustomPayload: map[string][]byte{"k": nil}, Message: &message.Query{Query: "q", Options: &message.QueryOptions{Consistency: clOne}}})},
+		// v5 2.4.1.2 flag 0x08 alone: the [string list] is the first value of the body.  body = 2+3+3+4 = 12
+		{"v5 result void, two warnings", v5, "85 08 0001 08 0000000c 0002 0001 61 0001 62 00000001", flagFrame(v5, 0x08, 1, 12, &frame.Body{Warnings: []string{"a", "b"}, Message: void})},
+		// dse_protocol_v2.spec 2.2: tracing id then an empty [bytes map].  body = 16+2+4 = 22
+		{"DSE v2 result void, tracing id and empty custom payload", dse2, "c2 06 0001 08 00000016 " + hxUuid + " 0000 00000001",
+			flagFrame(dse2, 0x06, 1, 22, &frame.Body{TracingId: uuid, CustomPayload: map[string][]byte{}, Message: void})},
+		// v5 2.4 / 2.4.1.2: "0x01: Compression flag. In protocol v5 this flag is deprecated and ignored."
+		// FAILS on /repo HEAD: "cannot decompress body: no compressor available" (with a compressor: the body would be decompressed)
+		{"v5 ready, the compression flag is ignored in v5", v5, "85 01 0001 02 00000000", flagFrame(v5, 0x01, 1, 0, &frame.Body{Message: &message.Ready{}})},
+		// v3 2.2 defines 0x01 and 0x02: "The rest of the flags is currently unused and ignored" - 0x04 is no custom payload in v3.
+		// FAILS on /repo HEAD: the decoder reads a custom payload ("cannot decode body custom payload ... EOF"); same root as the known C05 class custom-payload-below-v4
+		{"v3 ready, header flag 0x04 is unused in v3 and ignored", v3, "83 04 0001 02 00000000", flagFrame(v3, 0x04, 1, 0, &frame.Body{Message: &message.Ready{}})},
+		// v2 2.2 likewise: 0x08 is no warning flag in v2.
+		// FAILS on /repo HEAD: the decoder reads warnings ("cannot decode body warnings ... EOF"); same root as the known C05 class warnings-below-v4
+		{"v2 ready, header flag 0x08 is unused in v2 and ignored", v2, "82 08 01 02 00000000", flagFrame(v2, 0x08, 1, 0, &frame.Body{Message: &message.Ready{}})},
+		// v4 2.2: "The rest of flags is currently unused and ignored" (0x20, 0x40, 0x80)
+		{"v4 ready, unused header flags 0xe0", v4, "84 e0 0001 02 00000000", flagFrame(v4, 0xe0, 1, 0, &frame.Body{Message: &message.Ready{}})},
+		// v4 2.2 flag 0x08 concerns responses ("The response contains warnings"): a request body has no warnings
+		{"v4 options, warning flag on a request", v4, "04 08 0001 05 00000000", flagFrame(v4, 0x08, 1, 0, &frame.Body{Message: &message.Options{}})},
+		// Section 1 of v2, v3, v4 and the DSE specifications (2.4 of v5): "client libraries should always assume that the body of a given frame may contain more data than
+		// what is described in this document. It will however always be safe to ignore the remainder of the frame body"; 4.2 of every version:
+		// "clients should support extra informations (that they should simply discard) ... at the end of the frame body".
+		// The declared length covers the two extra bytes abcd: the frame ends after them.
+		// FAILS on /repo HEAD (all four): DecodeFrame decodes the message and leaves the remainder of the body unread (consumed = header +
+		// message, not header + length): on a stream (client.readFrame reads the connection with DecodeFrame) the next frame starts at "abcd"
+		{"v4 ready, two more body bytes than described are discarded", v4, "84 00 0001 02 00000002 abcd", respFrame(v4, 1, 2, &message.Ready{})},
+		{"v4 result void, two more body bytes than described are discarded", v4, "84 00 0001 08 00000006 00000001 abcd", respFrame(v4, 1, 6, void)},
+		{"v2 result void, two more body bytes than described are discarded", v2, "82 00 01 08 00000006 00000001 abcd", respFrame(v2, 1, 6, void)},
+		{"v5 auth challenge, two more body bytes than described are discarded", v5, "85 00 0001 0e 00000006 ffffffff abcd", respFrame(v5, 1, 6, &message.AuthChallenge{Token: nil})},
+		// 2.3: stream ids are signed; the smallest ones
+		{"v4 result void, stream id -32768", v4, "84 00 8000 08 00000004 00000001", respFrame(v4, -32768, 4, void)},
+		{"v2 result void, stream id -128", v2, "82 00 80 08 00000004 00000001", respFrame(v2, -128, 4, void)},
+		// 2.1: versions 1, 6 and DSE 3 (0x43) are described by no specification in /repo/specs that the library supports
+		{"version 1 request", primitive.ProtocolVersion(1), "01 00 01 05 00000000", nil},
+		{"version 6 request", primitive.ProtocolVersion(6), "06 00 0001 05 00000000", nil},
+		{"version 0x43 (DSE 3) request", primitive.ProtocolVersion(0x43), "43 00 0001 05 00000000", nil},
+		{"version 0x43 (DSE 3) response", primitive.ProtocolVersion(0x43), "c3 00 0001 02 00000000", nil},
+		// 2.1 direction bit against 2.4 opcode
+		{"v4 QUERY marked as a response", v4, "84 00 0001 07 00000008 " + hxQ + " 0001 00", nil},
+		{"v4 RESULT marked as a request", v4, "04 00 0001 08 00000004 00000001", nil},
+		{"v5 READY marked as a request", v5, "05 00 0001 02 00000000", nil},
+		{"v2 AUTH_RESPONSE marked as a response", v2, "82 00 01 0f 00000004 ffffffff", nil},
+		{"DSE v1 CANCEL marked as a response", dse1, "c1 00 0001 ff 00000008 00000001 00000005", nil},
+		// 2.4: "there is no 0x04 message in this version of the protocol"; 0x11 is past the table
+		{"v4 opcode 0x04", v4, "04 00 0001 04 00000000", nil},
+		{"v4 opcode 0x11", v4, "84 00 0001 11 00000000", nil},
+		{"v5 header with the DSE-only opcode 0xFF", v5, "05 00 0001 ff 00000008 00000001 00000005", nil},
+		// dse_protocol_v2.spec 4.1.9: revision type 2 carries <next_pages>.  body = 12
+		{"DSE v2 REVISE_REQUEST more pages", dse2, "42 00 0001 ff 0000000c 00000002 00000005 00000003",
+			respFrame(dse2, 1, 12, &message.Revise{RevisionType: primitive.DseRevisionTypeMoreContinuousPages, TargetStreamId: 5, NextPages: 3})},
+		// dse_protocol_v1.spec 4.1.9: the only operation type is 0x00000001
+		{"DSE v1 CANCEL of operation type 2 is not defined by DSE v1", dse1, "41 00 0001 ff 0000000c 00000002 00000005 00000003", nil},
+		{"DSE v2 REVISE_REQUEST of revision type 3 is not defined", dse2, "42 00 0001 ff 00000008 00000003 00000005", nil},
+	}
+}
+
+// checkSpecCase verifies the hand-written length arithmetic of a case: header length field = number of body bytes = BodyLength of the expectation.
+func checkSpecCase(c specCase, in []byte) {
+	hl := 9
+	if len(in) > 0 && in[0]&0x7f <= 2 {
+		hl = 8
+	}
+	if len(in) < hl {
+		panic(fmt.Sprintf("specbytes case %q: shorter than a header", c.name))
+	}
+	declared := int(int32(binary.BigEndian.Uint32(in[hl-4 : hl])))
+	if declared != len(in)-hl {
+		panic(fmt.Sprintf("specbytes case %q: header declares %d body bytes, %d written", c.name, declared, len(in)-hl))
+	}
+	if c.expect != nil && int(c.expect.Header.BodyLength) != declared {
+		panic(fmt.Sprintf("specbytes case %q: expected BodyLength %d, header declares %d", c.name, c.expect.Header.BodyLength, declared))
+	}
+	if uint8(c.version) != in[0]&0x7f {
+		panic(fmt.Sprintf("specbytes case %q: version %d, version byte %#x", c.name, c.version, in[0]))
+	}
+}
+
 func cmdSpecBytes() {
 	codec := frame.NewRawCodec()
 	for i, c := range specCases() {
 		in, err := hex.DecodeString(strings.ReplaceAll(c.hex, " ", ""))
 		if err != nil {
-			panic(err)
+			panic(fmt.Sprintf("specbytes case %q: %v", c.name, err))
 		}
+		checkSpecCase(c, in)
 		rec := J{"id": "sb" + itoa(i+1), "name": c.name, "version": int(c.version), "bytes": hex.EncodeToString(in), "expect_error": c.expect == nil}
 		f, consumed, outcome, why := decodeFrame(codec, in)
 		rec["decode"] = outcome
@@ -77,6 +658,8 @@ func cmdSpecBytes() {
 				rec["equal"] = d == "" && consumed == len(in)
 				if d != "" {
 					rec["why"] = d
+				} else if consumed != len(in) {
+					rec["why"] = fmt.Sprintf("the decoded frame is the expected one but %d of %d bytes were consumed", consumed, len(in))
 				}
 			}
 		}
